@@ -111,6 +111,7 @@ def c12_copy(E, edits="inplace"):
     m = base_model(E, sym_coef=(edits == "inplace"))
     m.genes.g1.annotation = {"ncbi": ["1"]}
     m.groups.G1.notes = {"g": 1}
+    m.reactions.R3.gene_reaction_rule = "g3"        # a rule that is a single gene (its tree is one leaf), next to Boolean ones
     # ids are unique per container only: a metabolite named like a reaction and a group named like a gene, both
     # referenced from groups (legal in cobrapy; a copy must keep the kind of every member)
     from cobra import Metabolite
